@@ -63,6 +63,7 @@ pub struct TagIterator<R: Read, TSpec>
     internal_buffer_position: usize,
     tag_stack: Vec<ProcessingTag<TSpec>>,
     emission_queue: VecDeque<Result<(TSpec, usize), TagIteratorError>>,
+    buffering_progress: Option<(usize, usize)>,
     last_emitted_tag_offset: usize,
     has_determined_doc_path: bool,
 
@@ -103,6 +104,7 @@ impl<R: Read, TSpec> TagIterator<R, TSpec>
             internal_buffer_position: 0,
             tag_stack: Vec::new(),
             emission_queue: VecDeque::new(),
+            buffering_progress: None,
             last_emitted_tag_offset: 0,
             has_determined_doc_path: false,
             emit_master_end_when_eof: true,
@@ -466,11 +468,6 @@ impl<R: Read, TSpec> TagIterator<R, TSpec>
                         data_start: next_tag.data_start,
                     });
 
-                    if self.tag_ids_to_buffer.contains(&tag_id) {
-                        let tag_start = next_tag.tag_start;
-                        self.buffer_master(tag_id, tag_start);
-                        return;
-                    }
                 }
             }
 
@@ -482,47 +479,51 @@ impl<R: Read, TSpec> TagIterator<R, TSpec>
         }
     }
 
-    fn buffer_master(&mut self, tag_id: u64, tag_start: usize) {
-        let pre_queue_len = self.emission_queue.len();
-
-        let mut position = pre_queue_len;
-        'endTagSearch: loop {
-            if position >= self.emission_queue.len() {
-                self.read_next();
-    
-                if position >= self.emission_queue.len() {
-                    // The source ran dry before the end of this master was found, so it cannot be emitted as a `Full` tag.
-                    // Its children are not emitted on their own either (just like when an error is found among them).
-                    self.emission_queue.truncate(pre_queue_len);
-                    self.emission_queue.push_back(Err(TagIteratorError::UnexpectedEOF{ tag_start, tag_id: Some(tag_id), tag_size: None, partial_data: None }));
-                    return;
-                }
-            }
-
+    ///
+    /// Turns the master whose `Start` is at the front of the emission queue into a `Full` tag, reading ahead until its end has been queued.
+    ///
+    /// Returns `false` if the source ran dry before the end of the master was found.  Everything read so far stays queued behind the `Start`, so the next call simply carries on - which matters for sources that can supply more data after reaching EOF.
+    ///
+    fn buffer_front_master(&mut self, tag_id: u64, tag_start: usize) -> bool {
+        // (position in the queue that has been inspected so far, how many nested masters with the same id are open)
+        let (mut position, mut nested_depth) = self.buffering_progress.take().unwrap_or((1, 0));
+        loop {
             while position < self.emission_queue.len() {
-                if let Some(r) = self.emission_queue.get(position) {
-                    match r {
-                        Err(_) => break 'endTagSearch,
-                        Ok(t) => {
-                            if t.0.get_id() == tag_id && matches!(t.0.as_master(), Some(Master::End)) {
-                                break 'endTagSearch;
-                            }
+                match &self.emission_queue[position] {
+                    Err(_) => {
+                        // The master can't be completed - like its children, it is dropped in favor of the error
+                        self.emission_queue.drain(..position);
+                        return true;
+                    },
+                    Ok((tag, _)) if tag.get_id() == tag_id => {
+                        match tag.as_master() {
+                            Some(Master::Start) => nested_depth += 1,
+                            Some(Master::End) if nested_depth == 0 => {
+                                let children = self.emission_queue.drain(..=position).skip(1).take(position - 1).map(|child| child.unwrap().0).collect();
+                                self.emission_queue.push_front(Ok((Self::roll_up_children(tag_id, children), tag_start)));
+                                return true;
+                            },
+                            Some(Master::End) => nested_depth -= 1,
+                            _ => {},
                         }
-                    }
+                    },
+                    Ok(_) => {},
                 }
                 position += 1;
             }
-        }
 
-        let mut children = self.emission_queue.split_off(pre_queue_len);
-        let split_to = position - pre_queue_len;
-        if children.get(split_to).unwrap().is_ok() {
-            let remaining = children.split_off(split_to).into_iter().skip(1);
-            let full_tag = Self::roll_up_children(tag_id, children.into_iter().map(|c| c.unwrap().0).collect());
-            self.emission_queue.push_back(Ok((full_tag, tag_start)));
-            self.emission_queue.extend(remaining);
-        } else {
-            self.emission_queue.extend(children.drain(split_to..).take(1));
+            let queued = self.emission_queue.len();
+            self.read_next();
+            if self.emission_queue.len() == queued {
+                if self.emit_master_end_when_eof {
+                    // The end of the source closes every open master, so this can only mean the master was lost track of
+                    self.emission_queue.clear();
+                    self.emission_queue.push_back(Err(TagIteratorError::UnexpectedEOF{ tag_start, tag_id: Some(tag_id), tag_size: None, partial_data: None }));
+                    return true;
+                }
+                self.buffering_progress = Some((position, nested_depth));
+                return false;
+            }
         }
     }
 
@@ -576,6 +577,14 @@ impl<R: Read, TSpec> Iterator for TagIterator<R, TSpec>
     fn next(&mut self) -> Option<Self::Item> {
         if self.emission_queue.is_empty() {
             self.read_next();
+        }
+        if let Some(Ok((tag, tag_start))) = self.emission_queue.front() {
+            if matches!(tag.as_master(), Some(Master::Start)) && self.tag_ids_to_buffer.contains(&tag.get_id()) {
+                let (tag_id, tag_start) = (tag.get_id(), *tag_start);
+                if !self.buffer_front_master(tag_id, tag_start) {
+                    return None;
+                }
+            }
         }
         let next_item = self.emission_queue.pop_front();
         if let Some(Ok(ref tuple)) = next_item {
